@@ -28,13 +28,12 @@ def rng(prop, seed, *extra):
 def worker_main(argv):
     modname, casefile, outfile = argv[:3]
     sys.path.insert(0, VERIF)
-    # no single file written by a worker may exceed 1 GiB (a runaway history once filled the disk with one archive) and no worker
-    # may map more than 6 GiB: the process dies (SIGXFSZ / MemoryError), which the parent records for the case in flight
+    # no single file written by a worker (or a child of it) may exceed 1 GiB - a runaway history once filled the disk with one archive:
+    # the writer dies with SIGXFSZ, which the parent records for the case in flight.  (No address-space limit: workers start
+    # sanitizer-built drivers, which reserve terabytes of shadow memory.)
     import resource
     try:
         resource.setrlimit(resource.RLIMIT_FSIZE, (1 << 30, 1 << 30))
-        if os.environ.get('VERIF_VARIANT') not in ('asan', 'tsan'):
-            resource.setrlimit(resource.RLIMIT_AS, (6 << 30, 6 << 30))
     except (ValueError, OSError):
         pass
     mod = importlib.import_module(modname)
